@@ -104,3 +104,33 @@ def shrink(exe_impl, exe_model, case):
         else:
             i += 1
     return (h, ops)
+
+def spec_check(exe_model, cases, impl_out):
+    """run the implementation's answers through the extracted specification
+    checker (spec_okb, proved sound w.r.t. spec_ok).  -> list of (case, index, op, impl line)"""
+    lines = []
+    for (h, ops), (_, il) in zip(cases, impl_out):
+        lines += h
+        res = il[1:]
+        for i, op in enumerate(ops):
+            lines.append(op)
+            if op.split()[1] == "dump":
+                continue
+            if i >= len(res):
+                break
+            body = res[i].split(" ", 1)[1].split(" ;")[0]
+            lines.append("RES " + body)
+        lines.append("END")
+    rc, out, err = C.sh([exe_model, "--check"], inp="\n".join(lines) + "\n", timeout=600)
+    bad = []
+    per = split_output(out)
+    for ci, ((h, ops), (_, ml)) in enumerate(zip(cases, per)):
+        for line in ml[1:]:
+            f = line.split()
+            if len(f) == 2 and f[1] == "BAD":
+                i = int(f[0])
+                bad.append(dict(case=ci, index=i, op=ops[i], impl=impl_out[ci][1][1 + i]))
+                break
+    if rc != 0:
+        bad.append(dict(case=len(per) - 1, index=-1, op="(spec checker crashed)", impl=err[-1000:]))
+    return bad
